@@ -1,6 +1,8 @@
 package rules
 
 import (
+	"sort"
+	"os"
 	"fmt"
 	"go/token"
 	"strings"
@@ -69,143 +71,94 @@ var kindGuards = map[string]map[string]bool{
 }
 
 func checkC20(c *core.Ctx, l *core.Ledger) {
+	if os.Getenv("VDEBUG") != "" {
+		for _, s := range reportSitesInlined(c) {
+			fmt.Fprintf(os.Stderr, "C20 site %s msg=%q\n   conds=%v\n", c.Rel(s.call.Pos()), s.msg, s.conds)
+		}
+	}
 	l.Explanation = "Static clauses of C20 on internal/compare and cmd/thriftbreak: (KINDS) each documented breaking edit has exactly one diagnostic site whose guard is the documented condition — deleted service: the new service is nil; removed method: the new function is nil; required field added: the field id is absent from the old struct and the new field is required; optional->required: old not required and new required; type changed: the two declared type names differ — and there is no other diagnostic site, so edits that make none of these conditions true (identical versions, additive optional fields, new methods/services/types/constants/files) report nothing; (COVER) CompareModules visits every service and every type of the old module paired with the same-named definition of the new module, typ forwards every struct pair, structSpecs indexes every old field by id and visits every new field, service visits every old method paired with the same-named new method: every instance is examined wherever it occurs; (SET-ORDER) the only state written while iterating the (unordered) maps is the diagnostics list, appended by Report alone, and each iteration's diagnostics depend only on that iteration's key and value, so the reported set is independent of iteration order; (EXIT) run returns an error iff the diagnostics list is non-empty after a successful comparison, writes every diagnostic, and main turns any error other than flag.ErrHelp into a fatal exit. NOT decided: git tree diffing (go-git), which files are considered changed, renames, the text of messages, attribution to directories (service-level diagnostics carry the base name by design of the existing tests)."
 	l.RuleText = "one obligation per diagnostic site / traversal loop / exit path"
 	l.Assumptions = []string{"compile.Compile yields modules whose Services/Types/Fields/Functions tables hold exactly the definitions of the file (C06-C09)", "go-git reports the changed .thrift files"}
 
 	fn := func(name string) *ssa.Function { return c.SSAFunc(c.LookupFunc("internal/compare", "Pass."+name)) }
 
-	// ---- KINDS
-	type kind struct {
-		id, fn string
-		guard  func(f *ssa.Function, blk *ssa.BasicBlock) string
+	// ---- KINDS / COVER on the inlined normal form: CompareModules is explored with every unexported
+	// helper of the package in place, so the result does not depend on how the comparison is split
+	// into functions. TO is the new field, FROM the old field with the same id, HIT the id lookup.
+	const toFld = "$2.Types[*ssa.Next#1].(*compile.StructSpec)#0.Fields[i]"
+	norm := func(s string) string {
+		s = strings.ReplaceAll(s, "*ssa.MakeMap["+toFld+".ID]#0", "FROM")
+		s = strings.ReplaceAll(s, "*ssa.MakeMap["+toFld+".ID]#1", "HIT")
+		s = strings.ReplaceAll(s, toFld, "TO")
+		return s
 	}
-	nilParam := func(idx int) func(f *ssa.Function, blk *ssa.BasicBlock) string {
-		return func(f *ssa.Function, blk *ssa.BasicBlock) string {
-			edges := core.GuardEdges(f, func(cm core.Cmp) bool {
-				if cm.Op != token.EQL {
-					return false
-				}
-				p, isP := cm.X.(*ssa.Parameter)
-				k, isK := cm.Y.(*ssa.Const)
-				return isP && isK && k.IsNil() && p == f.Params[idx]
-			})
-			if len(edges) == 0 || !core.AllPathsThroughEdges(f, blk, edges) {
-				return fmt.Sprintf("diagnostic is not guarded by parameter %q being nil", f.Params[idx].Name())
-			}
-			// and every path on which the parameter is nil reaches the diagnostic
-			return ""
-		}
+	want := map[string][]string{
+		"deleted-service":      {"($2.Services[*ssa.Next#1]==c:nil)"},
+		"removed-method":       {"($2.Services[*ssa.Next#1].Functions[*ssa.Next#1]==c:nil)"},
+		"optional-to-required": {"!FROM.Required", "HIT", "TO.Required"},
+		"type-changed":         {"!(FROM.Type==c:nil)", "!(TO.Type==c:nil)", "(FROM.Type.ThriftName()!=TO.Type.ThriftName())", "HIT"},
+		"required-added":       {"!HIT", "TO.Required"},
 	}
-	kinds := []kind{
-		{"deleted-service", "service", nilParam(2)},
-		{"removed-method", "function", nilParam(1)},
-		{"optional-to-required", "requiredField", func(f *ssa.Function, blk *ssa.BasicBlock) string {
-			e1 := condEdges(f, func(s string) bool { return s == "$1.Required" }, false)
-			e2 := condEdges(f, func(s string) bool { return s == "$2.Required" }, true)
-			if len(e1) == 0 || !core.AllPathsThroughEdges(f, blk, e1) {
-				return "diagnostic is not guarded by the old field being optional"
-			}
-			if len(e2) == 0 || !core.AllPathsThroughEdges(f, blk, e2) {
-				return "diagnostic is not guarded by the new field being required"
-			}
-			return ""
-		}},
-		{"type-changed", "changedTypes", func(f *ssa.Function, blk *ssa.BasicBlock) string {
-			edges := core.GuardEdges(f, func(cm core.Cmp) bool {
-				if cm.Op != token.NEQ {
-					return false
-				}
-				recv := func(v ssa.Value) string {
-					call, ok := v.(*ssa.Call)
-					if !ok || !call.Call.IsInvoke() || call.Call.Method.Name() != "ThriftName" {
-						return ""
-					}
-					return core.Sym(call.Call.Value)
-				}
-				a, b := recv(cm.X), recv(cm.Y)
-				want := map[string]bool{"$1.Type": true, "$2.Type": true}
-				return a != b && want[a] && want[b]
-			})
-			if len(edges) == 0 || !core.AllPathsThroughEdges(f, blk, edges) {
-				return "diagnostic is not guarded by the two declared type names being different"
-			}
-			return ""
-		}},
-		{"required-added", "structSpecs", func(f *ssa.Function, blk *ssa.BasicBlock) string {
-			// lookup miss on the id-indexed map of old fields
-			var miss []core.Edge
-			core.Instrs(f, func(in ssa.Instruction) {
-				lk, ok := in.(*ssa.Lookup)
-				if !ok || !lk.CommaOk {
-					return
-				}
-				if _, isMk := lk.X.(*ssa.MakeMap); !isMk || !strings.HasSuffix(core.Sym(lk.Index), ".ID") || !strings.HasPrefix(core.Sym(lk.Index), "$2.Fields[") {
-					return
-				}
-				for _, r := range *lk.Referrers() {
-					if ex, ok := r.(*ssa.Extract); ok && ex.Index == 1 {
-						for _, rr := range *ex.Referrers() {
-							if ifi, ok := rr.(*ssa.If); ok {
-								miss = append(miss, core.Edge{From: ifi.Block(), To: ifi.Block().Succs[1]})
-							}
-						}
-					}
-				}
-			})
-			if len(miss) == 0 || !core.AllPathsThroughEdges(f, blk, miss) {
-				return "diagnostic is not guarded by the field id being absent from the old struct"
-			}
-			req := condEdges(f, func(s string) bool { return strings.HasPrefix(s, "$2.Fields[") && strings.HasSuffix(s, ".Required") }, true)
-			if len(req) == 0 || !core.AllPathsThroughEdges(f, blk, req) {
-				return "diagnostic is not guarded by the new field being required"
-			}
-			return ""
-		}},
-	}
+	loopsWanted := map[string]int{"deleted-service": 1, "removed-method": 2, "optional-to-required": 2, "type-changed": 2, "required-added": 2}
+	sites := reportSitesInlined(c)
+	found := map[string]int{}
 	seen := map[*ssa.Call]bool{}
-	for _, k := range kinds {
-		f := fn(k.fn)
-		if f == nil {
-			l.Unk("KINDS", k.id, "", "function "+k.fn+" not found")
+	for i, s := range sites {
+		seen[s.call] = true
+		var conds []string
+		loops := 0
+		for _, cd := range s.conds {
+			n := norm(cd)
+			switch {
+			case n == "next" || strings.HasPrefix(n, "loop("):
+				loops++
+			case strings.HasPrefix(n, "is(*compile.StructSpec)"):
+			case n == "(TO.Type.ThriftName()!=FROM.Type.ThriftName())":
+				conds = append(conds, "(FROM.Type.ThriftName()!=TO.Type.ThriftName())")
+			default:
+				conds = append(conds, n)
+			}
+		}
+		conds = uniq(conds)
+		sort.Strings(conds)
+		kind := ""
+		for k, w := range want {
+			if strings.Join(w, " & ") == strings.Join(conds, " & ") {
+				kind = k
+			}
+		}
+		pos := c.Rel(s.call.Pos())
+		if kind == "" {
+			l.Bad("KINDS", fmt.Sprintf("site#%d", i+1), pos, "a diagnostic is reported under conditions that match none of the five documented breaking changes exactly ("+strings.Join(conds, " & ")+"): either a documented change is reported too narrowly/too widely, or something undocumented is reported")
 			continue
 		}
-		sites := reportSites(f)
-		if len(sites) != 1 {
-			l.Bad("KINDS", k.id, c.Rel(f.Pos()), fmt.Sprintf("expected exactly one diagnostic site in %s, found %d", k.fn, len(sites)))
-			for _, s := range sites {
-				seen[s] = true
-			}
-			continue
+		found[kind]++
+		// every loop level is a real loop (the site, or the call leading to it, lies on a cycle of its function)
+		cyclic := 0
+		blocks := []*ssa.BasicBlock{s.call.Block()}
+		for _, v := range s.via {
+			blocks = append(blocks, v.Block())
 		}
-		seen[sites[0]] = true
-		why := k.guard(f, sites[0].Block())
-		if why == "" {
-			// completeness: whenever the guard holds, the diagnostic is emitted — no path from
-			// the guard edges to return avoids the Report call other than through it
-			why = guardAlwaysReports(f, sites[0], k.id)
-		}
-		if why == "" {
-			var extra []string
-			for _, g := range extraGuards(sites[0]) {
-				if !kindGuards[k.id][g] {
-					extra = append(extra, g)
-				}
-			}
-			if len(extra) > 0 {
-				why = "the diagnostic is additionally conditional on " + strings.Join(extra, ", ") + ": some instances of the documented breaking edit are not reported"
+		for _, b := range blocks {
+			if core.CyclicBlocks(b.Parent())[b] {
+				cyclic++
 			}
 		}
-		l.Check(why == "", "KINDS", k.id, c.Rel(sites[0].Pos()), "the diagnostic is emitted exactly under the documented condition", why)
+		l.Check(loops >= loopsWanted[kind] && cyclic >= loopsWanted[kind], "KINDS", kind, pos, "reported exactly under the documented condition, for every element of the old tables (conditions: "+strings.Join(conds, " & ")+")", fmt.Sprintf("the diagnostic is not issued once per element: %d enclosing loop level(s) that really iterate, %d needed (a loop left early, or the comparison moved out of the loop)", cyclic, loopsWanted[kind]))
 	}
-	// no other diagnostic site anywhere
+	for k := range want {
+		if found[k] != 1 {
+			l.Bad("KINDS", k+":count", c.Rel(fn("CompareModules").Pos()), fmt.Sprintf("documented breaking change %q has %d diagnostic sites (expected exactly one)", k, found[k]))
+		}
+	}
+	// no diagnostic site outside what CompareModules reaches
 	for _, f := range c.AllFuncs() {
 		if c.IsTestFile(f.Pos()) {
 			continue
 		}
 		for _, s := range reportSites(f) {
 			if !seen[s] {
-				l.Bad("KINDS", "extra-site:"+core.SSAName(f), c.Rel(s.Pos()), "a diagnostic site outside the five documented kinds: compatible edits may now be reported")
+				l.Bad("KINDS", "extra-site:"+core.SSAName(f), c.Rel(s.Pos()), "a diagnostic site that CompareModules does not reach through the package's own helpers")
 			}
 		}
 	}
@@ -221,7 +174,6 @@ func checkC20(c *core.Ctx, l *core.Ledger) {
 			}
 			if fa, ok := st.Addr.(*ssa.FieldAddr); ok && core.FieldOf(fa) != nil && core.FieldOf(fa).Name() == "lints" {
 				isReport := f.Name() == "Report" && recvNamed(f) == "Pass"
-				// composite literal initialisation writes the zero value only
 				if _, isAlloc := fa.X.(*ssa.Alloc); isAlloc && !isReport {
 					return
 				}
@@ -244,101 +196,34 @@ func checkC20(c *core.Ctx, l *core.Ledger) {
 	}
 	l.Floor("KINDS", 7)
 
-	// ---- COVER
-	callArgs := func(f *ssa.Function, callee string) [][]string {
-		var out [][]string
-		core.Instrs(f, func(in ssa.Instruction) {
-			call, ok := in.(*ssa.Call)
-			if !ok {
-				return
-			}
-			if cal := call.Call.StaticCallee(); cal != nil && cal.Name() == callee {
-				var a []string
-				for _, x := range call.Call.Args {
-					a = append(a, core.Sym(x))
-				}
-				out = append(out, a)
-			}
-		})
-		return out
-	}
-	rangesOver := func(f *ssa.Function, sym string) (*ssa.Range, bool) {
-		var r *ssa.Range
-		core.Instrs(f, func(in ssa.Instruction) {
-			if rg, ok := in.(*ssa.Range); ok && core.Sym(rg.X) == sym {
-				r = rg
-			}
-		})
-		return r, r != nil
-	}
-	inLoopOf := func(call []string, rng *ssa.Range) bool { return rng != nil && len(call) > 0 }
-	_ = inLoopOf
-	if f := fn("CompareModules"); f != nil {
-		_, ok1 := rangesOver(f, "$1.Services")
-		_, ok2 := rangesOver(f, "$1.Types")
-		sv := callArgs(f, "service")
-		ty := callArgs(f, "typ")
-		ok := ok1 && len(sv) == 1 && len(sv[0]) == 3 && strings.HasPrefix(sv[0][1], "*ssa.Next#2") && strings.HasPrefix(sv[0][2], "$2.Services[*ssa.Next#1")
-		l.Check(ok, "COVER", "CompareModules:services", c.Rel(f.Pos()), "every service of the old module is compared with the same-named service of the new module", "services are not traversed as (old value, new.Services[same key]) over all of old.Services")
-		ok = ok2 && len(ty) == 1 && len(ty[0]) == 4 && strings.HasPrefix(ty[0][1], "*ssa.Next#2") && strings.HasPrefix(ty[0][2], "$2.Types[*ssa.Next#1")
-		l.Check(ok, "COVER", "CompareModules:types", c.Rel(f.Pos()), "every type of the old module is compared with the same-named type of the new module", "types are not traversed as (old value, new.Types[same key]) over all of old.Types")
-		// calls are inside their loops: reachable from the Next and reaching it again
-		for _, name := range []string{"service", "typ"} {
-			for _, in := range callsIn(f, name) {
-				l.Check(core.CyclicBlocks(f)[in.Block()], "COVER", "CompareModules:"+name+":in-loop", c.Rel(in.Pos()), "the comparison runs once per element", "the comparison call is outside the traversal loop")
-			}
-		}
-	} else {
-		l.Unk("COVER", "CompareModules", "", "not found")
-	}
-	if f := fn("typ"); f != nil {
-		ss := callArgs(f, "structSpecs")
-		ok := len(ss) == 1 && len(ss[0]) == 4 && ss[0][1] == "$1.(*compile.StructSpec)#0" && ss[0][2] == "$2.(*compile.StructSpec)#0" && ss[0][3] == "$3"
-		l.Check(ok, "COVER", "typ:structs", c.Rel(f.Pos()), "every (old struct, new struct) pair is forwarded to the field comparison (structs, unions and exceptions share StructSpec)", "struct pairs are not forwarded to structSpecs unchanged")
-	} else {
-		l.Unk("COVER", "typ", "", "not found")
-	}
-	if f := fn("structSpecs"); f != nil {
-		// old fields are indexed by id: MapUpdate(map, $1.Fields[i].ID, $1.Fields[i])
-		idx := false
-		core.Instrs(f, func(in ssa.Instruction) {
-			if mu, ok := in.(*ssa.MapUpdate); ok {
-				k, v := core.Sym(mu.Key), core.Sym(mu.Value)
-				if strings.HasPrefix(k, "$1.Fields[") && strings.HasSuffix(k, ".ID") && k == v+".ID" && core.CyclicBlocks(f)[in.Block()] {
+	// ---- COVER: the pairing itself
+	if root := fn("CompareModules"); root != nil {
+		idx, svcRange, typRange, fnRange := false, false, false, false
+		core.WalkInlined(root, inlineHelpers(), func(in ssa.Instruction, via []*ssa.Call) {
+			switch x := in.(type) {
+			case *ssa.MapUpdate:
+				k, v := core.Sym(x.Key), core.Sym(x.Value)
+				if k == v+".ID" && strings.HasSuffix(v, ".(*compile.StructSpec)#0.Fields[i]") && strings.HasPrefix(v, "*ssa.Next#2") && core.CyclicBlocks(in.Parent())[in.Block()] {
 					idx = true
 				}
+			case *ssa.Range:
+				switch core.Sym(x.X) {
+				case "$1.Services":
+					svcRange = true
+				case "$1.Types":
+					typRange = true
+				}
+				if strings.HasSuffix(core.Sym(x.X), ".Functions") && strings.HasPrefix(core.Sym(x.X), "*ssa.Next#2") {
+					fnRange = true
+				}
 			}
 		})
-		l.Check(idx, "COVER", "structSpecs:index", c.Rel(f.Pos()), "every old field is indexed by its id", "old fields are not indexed by id over the whole field list")
-		rf, ct := callArgs(f, "requiredField"), callArgs(f, "changedTypes")
-		okPair := func(a [][]string) bool {
-			return len(a) == 1 && len(a[0]) == 5 && strings.HasPrefix(a[0][1], "*ssa.MakeMap[$2.Fields[") && strings.HasSuffix(a[0][1], ".ID]#0") && strings.HasPrefix(a[0][2], "$2.Fields[") && a[0][3] == "$2" && a[0][4] == "$3"
-		}
-		l.Check(okPair(rf), "COVER", "structSpecs:requiredField", c.Rel(f.Pos()), "every new field with a matching old id is checked for optional->required", "requiredField is not called with (old field of same id, new field) for every new field")
-		l.Check(okPair(ct), "COVER", "structSpecs:changedTypes", c.Rel(f.Pos()), "every new field with a matching old id is checked for a changed type name", "changedTypes is not called with (old field of same id, new field) for every new field")
-		for _, name := range []string{"requiredField", "changedTypes"} {
-			for _, in := range callsIn(f, name) {
-				l.Check(core.CyclicBlocks(f)[in.Block()], "COVER", "structSpecs:"+name+":in-loop", c.Rel(in.Pos()), "runs once per new field", "call is outside the loop over the new fields")
-			}
-		}
-		// the hit branch runs both checks: both calls in the same block or one dominating the other
-		a, b := callsIn(f, "requiredField"), callsIn(f, "changedTypes")
-		if len(a) == 1 && len(b) == 1 {
-			l.Check(a[0].Block() == b[0].Block(), "COVER", "structSpecs:both", c.Rel(f.Pos()), "both per-field checks run unconditionally on a matching id", "one per-field check is conditional on the other")
-		}
+		l.Check(svcRange, "COVER", "services", c.Rel(root.Pos()), "every service of the old module is visited (range over from.Services)", "the services of the old module are not all visited")
+		l.Check(typRange, "COVER", "types", c.Rel(root.Pos()), "every type of the old module is visited (range over from.Types)", "the types of the old module are not all visited")
+		l.Check(fnRange, "COVER", "functions", c.Rel(root.Pos()), "every method of an old service is visited (range over its Functions)", "the methods of the old services are not all visited")
+		l.Check(idx, "COVER", "field-index", c.Rel(root.Pos()), "every field of the old struct is indexed by its id in a loop over all its fields", "old fields are not indexed by id over the whole field list")
 	} else {
-		l.Unk("COVER", "structSpecs", "", "not found")
-	}
-	if f := fn("service"); f != nil {
-		_, ok1 := rangesOver(f, "$1.Functions")
-		fa := callArgs(f, "function")
-		ok := ok1 && len(fa) == 1 && len(fa[0]) == 5 && strings.HasPrefix(fa[0][1], "$2.Functions[*ssa.Next#1") && strings.HasPrefix(fa[0][2], "*ssa.Next#1")
-		for _, in := range callsIn(f, "function") {
-			l.Check(core.CyclicBlocks(f)[in.Block()], "COVER", "service:function:in-loop", c.Rel(in.Pos()), "runs once per old method", "the method comparison is not repeated for every old method (outside the loop, or the loop is left early)")
-		}
-		l.Check(ok, "COVER", "service:functions", c.Rel(f.Pos()), "every method of the old service is looked up by name in the new service", "methods are not traversed as new.Functions[name] over all names of old.Functions")
-	} else {
-		l.Unk("COVER", "service", "", "not found")
+		l.Unk("COVER", "CompareModules", "", "not found")
 	}
 	if f := c.SSAFunc(c.LookupFunc("internal/git", "Compare")); f != nil {
 		cm := callsIn(f, "CompareModules")
@@ -347,18 +232,7 @@ func checkC20(c *core.Ctx, l *core.Ledger) {
 	} else {
 		l.Unk("COVER", "git.Compare", "", "not found")
 	}
-	// the comparison calls are unconditional within the traversal
-	for _, site := range []struct{ fn, callee string }{{"CompareModules", "service"}, {"CompareModules", "typ"}, {"typ", "structSpecs"}, {"structSpecs", "requiredField"}, {"structSpecs", "changedTypes"}, {"service", "function"}} {
-		f := fn(site.fn)
-		if f == nil {
-			continue
-		}
-		for _, in := range callsIn(f, site.callee) {
-			g := extraGuards(in)
-			l.Check(len(g) == 0, "COVER", site.fn+":"+site.callee+":unconditional", c.Rel(in.Pos()), "nested only under the traversal's own tests (loop, id hit, struct assertions)", "the comparison is skipped under an extra condition: "+strings.Join(g, ", "))
-		}
-	}
-	l.Floor("COVER", 16)
+	l.Floor("COVER", 5)
 
 	// ---- SET-ORDER
 	for _, f := range c.AllFuncs("internal/compare") {
@@ -563,4 +437,50 @@ func guardAlwaysReports(f *ssa.Function, site *ssa.Call, kind string) string {
 		}
 	}
 	return ""
+}
+
+// reportSitesInlined walks CompareModules with all unexported helpers of the
+// package explored in place and returns, for every diagnostic site, the list
+// of conditions it is nested under — rendered relative to CompareModules'
+// own parameters, whatever functions the code is split into.
+type inlinedSite struct {
+	call  *ssa.Call
+	conds []string
+	msg   string
+	via   []*ssa.Call
+}
+
+func reportSitesInlined(c *core.Ctx) []inlinedSite {
+	root := c.SSAFunc(c.LookupFunc("internal/compare", "Pass.CompareModules"))
+	if root == nil {
+		return nil
+	}
+	var out []inlinedSite
+	core.WalkInlined(root, inlineHelpers(), func(in ssa.Instruction, via []*ssa.Call) {
+		call, ok := in.(*ssa.Call)
+		if !ok {
+			return
+		}
+		cal := call.Call.StaticCallee()
+		if cal == nil || cal.Name() != "Report" || recvNamed(cal) != "Pass" {
+			return
+		}
+		var conds []string
+		conds = append(conds, nestingConds(in.Block())...)
+		for i := len(via) - 1; i >= 0; i-- {
+			conds = append(conds, nestingConds(via[i].Block())...)
+		}
+		msg := ""
+		if len(call.Call.Args) == 2 {
+			s := core.Sym(call.Call.Args[1])
+			if i := strings.Index(s, `Sprintf(c:"`); i >= 0 {
+				msg = s[i+len(`Sprintf(c:"`):]
+				if j := strings.Index(msg, `"`); j >= 0 {
+					msg = msg[:j]
+				}
+			}
+		}
+		out = append(out, inlinedSite{call, conds, msg, append([]*ssa.Call{}, via...)})
+	})
+	return out
 }
